@@ -132,6 +132,12 @@ let handle line =
        | None -> "NONE" | Some None -> "FAIL" | Some (Some _) -> "OK")
   | "LOADS" :: cwd :: text :: fs -> outcome_js prog_js (bb_loads (fs_of fs) (cps cwd) (cps text))
   | "LOAD" :: cwd :: path :: fs -> outcome_js prog_js (bb_load (fs_of fs) (cps cwd) (cps path))
+  | ["DIGRAPH"; ws] ->
+      (* operations separated by ';', each a comma separated wire list *)
+      let ops = if ws = "" then [] else List.map (fun o -> List.map nat_of_int (ints o)) (String.split_on_char ';' ws) in
+      let es = edges ops and ns = nodes ops in
+      "N " ^ String.concat "," (List.map (fun n -> string_of_int (int_of_nat n)) ns) ^ " E " ^
+      String.concat "," (List.map (fun (a, b) -> Printf.sprintf "%d>%d" (int_of_nat a) (int_of_nat b)) es)
   | _ -> "ERR bad request"
 
 let () =
